@@ -1,13 +1,20 @@
 //! `std::thread` model: `spawn` runs the closure synchronously (avoids Kani's ICE on
 //! `JoinHandle` drop glue, DESIGN P9); background tasks are outside every claim.
-use std::any::Any;
+//! `join` returns a unit-like error type instead of `Box<dyn Any + Send>` (whose recursive drop
+//! glue CBMC unwinds to the bound).
+
+#[derive(Debug)]
+pub struct JoinError;
 
 pub struct JoinHandle<T> {
     res: Option<T>,
 }
 impl<T> JoinHandle<T> {
-    pub fn join(mut self) -> Result<T, Box<dyn Any + Send + 'static>> {
-        Ok(self.res.take().unwrap())
+    pub fn join(mut self) -> Result<T, JoinError> {
+        match self.res.take() {
+            Some(v) => Ok(v),
+            None => Err(JoinError),
+        }
     }
 }
 pub fn spawn<F, T>(f: F) -> JoinHandle<T>
